@@ -2,7 +2,7 @@ import KrroodVerif.Sexp
 import KrroodVerif.Model.Descriptor
 /-!
 C15 driver. Case: `(h (fields (cls prop kind)…) (supers (p a…)…) (inv (p q)…) (trans p…) (objs (cls rt|-)…)
-(ops (set f s t) (add f s t) (assign f s x…)…))`.
+(ops (set f s t) (add f s t) (assign f s x…) (ctor o (f x…)…)…))`.
 Output: `R[f:s:t,…]|F[f.o=t,t;…;f.o~t|t;…]` — relation triples sorted; per field and object of its class the sorted
 targets (`=` container contents, `~` admissible values of a single-valued field).
 -/
@@ -53,6 +53,28 @@ def parseOp : Sexp → Option Op
   | .list [.atom "falsy", _] => some .churn
   | .list [.atom "truthy", _] => some .churn
   | _ => none
+
+/-- `(ctor o (f x…) (f) …)`: instance `o` is created by ONE constructor call; every managed field of its class is
+listed in the order in which the dataclass `__init__` assigns it, with the values given to the constructor (none:
+the default). Each assignment is the descriptor's `__set__`: a single-valued field with a value is `set1` (its
+default `None` asserts nothing), a container field is `assign` — also for the default (an empty collection), which
+keeps what inference triggered by an EARLIER field of the same call has already put there. -/
+def parseCtor (S : Schema) (o : Nat) (fs : List Sexp) : Option (List Op) :=
+  fs.mapM (fun x => match x with
+    | .list (f :: xs) => do
+        let f ← f.asNat?
+        let xs ← parseNats xs
+        match S.kindOf f, xs with
+        | .single, [] => pure Op.churn
+        | .single, [t] => pure (Op.set1 f o t)
+        | .single, _ => none
+        | _, xs => pure (Op.assign f o xs)
+    | _ => none)
+
+/-- one history item → the operations it stands for -/
+def parseItem (S : Schema) : Sexp → Option (List Op)
+  | .list (.atom "ctor" :: o :: fs) => do parseCtor S (← o.asNat?) fs
+  | x => (parseOp x).map fun op => [op]
 
 /-- F-C15-2 is repaired in /repo (`is not None` instead of truthiness): the gate is off; `before_fix=` shows the old
 behaviour -/
@@ -112,14 +134,18 @@ def inRange (S : Schema) (W : World) (ops : List Op) : Bool :=
 def run (s : Sexp) : String :=
   match s with
   | .list (.atom "h" :: items) =>
-    match parseSchema items, parseWorld items, (Sexp.field? items "ops").bind (·.mapM parseOp) with
-    | some S, some W, some ops =>
+    match parseSchema items, parseWorld items with
+    | some S, some W =>
+    (match (Sexp.field? items "ops").bind (·.mapM fun x => (parseItem S x).map fun os => os.map fun op => (x, op)) with
+    | some pairs =>
+      let raws := pairs.flatten.map (·.1)
+      let ops := pairs.flatten.map (·.2)
       let dead := killed ((Sexp.field? items "ops").getD [])
       -- an instance that dies takes part in no relation (its fields are empty, nothing refers to it) and plays no role
       let deadOk := dead.all fun o => (asserted ops).all (fun r => r.2.1 != o && r.2.2 != o) && !W.rt.contains (some o)
       if !(inRange S W ops && deadOk && ops.all (·.wellKinded S.kindOf) && W.rt.all (fun r => match r with | some x => x < W.size | none => true))
       then "error=ill-formed-case" else
-      let gated := gateOps ((Sexp.field? items "ops").getD []) ops
+      let gated := gateOps raws ops
       let out (os : List Op) : String × Bool :=
         let σ := runModel S W os
         (showRels σ.g ++ "|" ++ showFields S W dead (fun f o => σ.st f o) σ.g, σ.clob)
@@ -133,7 +159,8 @@ def run (s : Sexp) : String :=
       else
         let m := out ops
         s!"model={m.1}\tspec={spec}\ttrig={if m.2 then "F-C15-3" else ""}\tbefore_fix={(out gated).1}"
-    | _, _, _ => "error=bad-case"
+    | none => "error=bad-case")
+    | _, _ => "error=bad-case"
   | _ => "error=bad-case"
 
 end KrroodVerif.Drive.C15
